@@ -2028,3 +2028,49 @@ def repeated_statements(k):
     out.append(("accounts_chargesets", head % "" + rep(lambda i: 'account acc%d "A"\n' % i) + 'resource r1 "R1" { rate 100 }\ntask tgt "T" {\n  effort 5d\n  allocate r1\n' + rep(lambda i: "  chargeset acc%d\n" % i) + "}\n"))
     out.append(("macros", rep(lambda i: "macro m%d [ %s ]\n" % (i, "${m%d}" % (i - 1) if i else "5d")) + head % "" + 'resource r1 "R1" {}\ntask w "W" { effort ${m%d} allocate r1 }\n' % (k - 1)))
     return out
+
+
+def odd_inputs():
+    """C11: small texts that are grammatical (or that the parser accepts) but combine statements in ways no fixture does:
+    several allocate lines, scenario-specific duration / length, an undefined macro where a date belongs, flags without the
+    attributes they qualify, unusual units in the header, astronomically large values.  Each must end as Reject or Schedule."""
+    H = 'project p "P" 2024-01-01 +2w {\n  timezone "UTC"\n%s}\n'
+    RES = 'resource r "R" {}\nresource r2 "R2" {}\nresource r3 "R3" {}\n'
+    out = []
+
+    def add(kind, header_extra, body, length=None):
+        h = H % header_extra
+        if length:
+            h = h.replace("+2w", length)
+        out.append((kind, h + RES + body))
+    add("two_allocates_opts", "", 'task a "A" { effort 1d allocate r { alternative r2 } allocate r3 }\n')
+    add("two_allocates_plain", "", 'task a "A" { effort 1d allocate r allocate r3 }\n')
+    add("allocate_same_twice", "", 'task a "A" { effort 2d allocate r, r }\n')
+    add("alt_is_primary", "", 'task a "A" { effort 2d allocate r { alternative r, r2 } }\n')
+    add("scen_duration", '  scenario plan "Plan" { scenario s1 "S1" }\n', 'task a "A" { effort 1d allocate r s1:duration 3d }\n')
+    add("scen_length", '  scenario plan "Plan" { scenario s1 "S1" }\n', 'task a "A" { effort 1d allocate r s1:length 3d }\n')
+    add("plain_duration", "", 'task a "A" { duration 3d }\ntask b "B" { length 2d depends !a }\n')
+    add("undef_macro_date", "", 'task a "A" { effort 1d allocate r start ${nosuch} }\n')
+    add("undef_macro_date_ms", "", 'task a "A" { start ${nosuch} }\n')
+    add("undef_macro_effort", "", 'task a "A" { effort ${nosuch} allocate r }\n')
+    add("contiguous_noalloc", "  workinghours mon - sun 0:00 - 24:00\n", 'task a "A" { effort 40h start 2024-01-12 flags contiguous }\n', "+1w")
+    add("contiguous_alloc_late", "", 'task a "A" { effort 60h allocate r start 2024-01-11 flags contiguous }\n')
+    add("resolution_zero", "  timingresolution 0min\n", 'task a "A" { effort 1d allocate r }\n')
+    add("resolution_90min", "  timingresolution 90min\n", 'task a "A" { effort 1d allocate r }\n')
+    add("resolution_2h", "  timingresolution 2h\n", 'task a "A" { effort 1d allocate r }\n')
+    add("resolution_7min", "  timingresolution 7min\n", 'task a "A" { effort 1d allocate r }\n')
+    add("length_hours", "", 'task a "A" { effort 1h allocate r }\n', "+6h")
+    add("length_minutes", "", 'task a "A" { effort 1h allocate r }\n', "+300min")
+    add("huge_gap", "", 'task a "A" { effort 1d allocate r }\ntask b "B" { effort 1d allocate r depends !a { gapduration 10000000d } }\n')
+    add("huge_gaplength", "", 'task a "A" { effort 1d allocate r }\ntask b "B" { effort 1d allocate r depends !a { gaplength 100000d } }\n')
+    add("late_project", "", 'task a "A" { effort 30d allocate r }\n'.replace("30d", "30d"), None)
+    out[-1] = ("late_project", out[-1][1].replace("2024-01-01 +2w", "9999-12-01 +2w"))
+    add("priority_zero", "", 'task a "A" { effort 1d allocate r priority 0 }\ntask b "B" { effort 1d allocate r priority 1001 }\n')
+    add("dup_top_ids", "", 'task a "A" { effort 1d allocate r }\ntask a "A2" { effort 2d allocate r }\ntask b "B" { effort 1d allocate r depends a }\n')
+    add("group_direct_midslot", "", 'resource team "T" { resource m1 "M1" {} resource m2 "M2" {} }\ntask x "X" { effort 90min allocate r }\ntask y "Y" { effort 2h allocate team depends !x }\n')
+    add("shift_forward_ref", "", 'resource late "L" { workinghours s1 }\nshift s1 "S1" { workinghours mon - fri 06:00 - 10:00 }\ntask a "A" { effort 8h allocate late }\n')
+    add("hours_24", "", 'resource n "N" { workinghours mon - sun 0:00 - 24:00 }\ntask a "A" { effort 100h allocate n }\n')
+    add("end_only_ms_dep", "", 'task a "A" { effort 5d allocate r }\ntask m "M" { milestone end 2024-01-03 depends !a }\n')
+    add("alap_chain_long", "", "".join('task t%d "T" { effort 1h allocate r %s }\n' % (i, "depends !t%d" % (i - 1) if i else "") for i in range(300))
+        + 'task last "L" { effort 1h allocate r depends !t299 scheduling alap end 2024-03-29 }\n', "+3m")
+    return out
